@@ -22,6 +22,8 @@ META = dict(
 )
 
 LIBS = {
+    # a low-power model that fits low gains next to a high-power one with a high minimum gain
+    'lowpower+highgainmin': ['high_detail_model_example', 'medium+low_gain', 'std_fixed_gain'],
     'vg3': ['std_low_gain', 'std_medium_gain', 'std_high_gain'],
     'vg+fixed+highpower': ['std_medium_gain', 'std_fixed_gain', 'high_power', 'std_low_gain'],
     'with_raman': ['std_medium_gain', 'std_high_gain', 'hybrid_4pumps_lowgain', 'hybrid_4pumps_mediumgain'],
@@ -43,6 +45,10 @@ def h_select(ctx, lib, raman_allowed):
         err = None
     except ConfigurationError as e:
         variety, err = None, e
+    except Exception as e:          # noqa: anything else is an internal failure of the selection (auto-design would abort)
+        ctx.prove('selection returns a model or refuses with a configuration error (no internal failure)', False,
+                  info=dict(lib=lib, raman_allowed=raman_allowed, error=f'{type(e).__name__}: {e}'))
+        return
     permitted = [n for n, a in edfa_eqpt.items() if raman_allowed or not a.raman]
     info = dict(lib=lib, raman_allowed=raman_allowed, chosen=variety)
     if err is not None:
